@@ -356,5 +356,12 @@ example : toyTyped.toLM.indexC [60, 47, 115, 62] = toyTyped.toLM.eos := by decid
 example : toyTyped.toLM.scoreSlow [32, 97, 9, 98, 98] true true = -11 := by
   unfold LM.scoreSlow LM.slowIds; rw [pySplit_spec]; decide
 example : freeLM.Coherent := fun _ _ => rfl
+-- hypotheses of `query_eq` / `whitespace_irrelevant` are satisfiable by distinct, whitespace-heavy sentences
+example : (0 ∉ ([32, 97, 9, 11, 98, 13] : Bytes)) ∧ (10 ∉ ([32, 97, 9, 11, 98, 13] : Bytes)) := by decide
+example : pySplit [32, 97, 9, 11, 98, 13] = pySplit [97, 32, 98] ∧ ([32, 97, 9, 11, 98, 13] : Bytes) ≠ [97, 32, 98] := by
+  rw [pySplit_spec, pySplit_spec]; decide
+-- the free model separates the two paths on the NUL witness, and agrees on a NUL-free sentence
+example : freeLM.scoreFast kSpaces [97, 32, 98] = freeLM.scoreSlow [97, 32, 98] true true :=
+  fast_eq_slow freeLM _ (by decide)
 
 end KV.C14
